@@ -113,6 +113,10 @@ pub fn props_for(sc: &Scenario, f: &Failure) -> Vec<&'static str> {
     if f.classification.starts_with("subscriber/") && (f.property == "C05") {
         // detected after the vector was dropped: the end-of-stream property
         if f.step > sc.steps.len() {
+            // a subscriber that may have lagged and ends on a stale replica was also not resynchronised (C06)
+            if sc.cap < 64 && sc.steps.len() >= sc.cap {
+                return vec!["C08", "C06"];
+            }
             return vec!["C08"];
         }
         // C06 speaks about every capacity and every polling pattern; C05 only about subscribers that cannot have lagged
@@ -425,6 +429,19 @@ fn single_stage_family(st: &Stage, quick: bool, seed: u64, out: &mut Vec<Scenari
     let mut c3 = cfg(1, false, Some(vec![TxEnd::Commit]), &[], false);
     c3.tx_lens = vec![3];
     scenarios_for(&chain, &[0, 2], &[16], &[false, true], &c3, out);
+    // (d) lag, resynchronise, carry on: two unpolled ops at capacity 1 (Reset from lag), then a third op after the drain
+    {
+        let c = cfg(3, false, None, &[], false);
+        let mut seqs = Vec::new();
+        enum_ops(&Model::new(3), &chain, &c, 3, 0, &mut Vec::new(), &mut seqs);
+        for seq in &seqs {
+            for pat in [[PollMode::None, PollMode::Drain, PollMode::Drain], [PollMode::None, PollMode::One, PollMode::Drain]] {
+                for b in [false, true] {
+                    out.push(Scenario { cap: 1, initial: 3, stages: chain.to_vec(), steps: seq.iter().cloned().zip(pat.iter().cloned()).collect(), batched: b, drop_at_end: true, final_drain: true, abandon_at: None });
+                }
+            }
+        }
+    }
     if !quick {
         scenarios_for(&chain, &[1, 2], &[16], &[false, true], &cfg(3, false, None, &[0, 2, 4], true), out);
         scenarios_for(&chain, &[2], &[2], &[false, true], &cfg(3, true, None, &[0, 1, 3], false), out);
@@ -436,7 +453,7 @@ fn build(check: &str, tier: &str, seed: u64) -> (Vec<Scenario>, String) {
     let quick = tier != "thorough";
     let mut out = Vec::new();
     let ends_all = vec![TxEnd::Commit, TxEnd::Rollback, TxEnd::Drop, TxEnd::RollbackThenCommit];
-    let fam = "per stage configuration: (a) every op sequence of depth 3 from initial lengths {0,3} drained after every op; (b) depth 2 from length 3 under all 9 poll patterns (drain/take-one/none per step) with capacities {1,16} (Reset from lag), with and without a poll between the last op and the drop; (c) two-op transactions alone and next to one primitive op; both stream flavours; the source is dropped at the end";
+    let fam = "per stage configuration: (a) every op sequence of depth 3 from initial lengths {0,3} drained after every op; (b) depth 2 from length 3 under all 9 poll patterns (drain/take-one/none per step) with capacities {1,16} (Reset from lag), with and without a poll between the last op and the drop; (c) two-op transactions alone and next to one primitive op; (d) every op sequence of depth 3 from length 3 at capacity 1 with the first op unpolled (Reset from lag, then one more op); both stream flavours; the source is dropped at the end";
     let thor = "; thorough adds depth 4 (static parameters), depth 3 from lengths {1,2}, depth 3 under all 27 poll patterns, and 600 seeded random histories of length 25 per configuration (not exhaustive)";
     let scope;
     match check {
@@ -601,6 +618,8 @@ fn run_obs(check: &str, tier: &str, seed: u64, known: &Known) -> serde_json::Val
         (false, vec![ObsOp::Subscribe, ObsOp::Downgrade]),
         (true, vec![ObsOp::Subscribe, ObsOp::Poll(0), ObsOp::IntoShared]),
         (false, vec![ObsOp::SubscribeReset, ObsOp::Subscribe, ObsOp::Poll(1), ObsOp::PollOtherWaker(1)]),
+        // an upgraded weak reference is an owner like any other: what happens after one of the two is dropped
+        (false, vec![ObsOp::Subscribe, ObsOp::Downgrade, ObsOp::Upgrade(0)]),
     ];
     let depth = if quick { 4 } else { 5 };
     for (uniq, pre) in &prefixes {
@@ -667,17 +686,17 @@ fn run_obs(check: &str, tier: &str, seed: u64, known: &Known) -> serde_json::Val
                         Ok(Some(f)) => f,
                         Err(p) => {
                             let msg = p.downcast_ref::<String>().cloned().or_else(|| p.downcast_ref::<&str>().map(|s| s.to_string())).unwrap_or_default();
-                            ObsFailure { property: "C01", classification: format!("{}/panic", if is_async { "async-lock" } else { "sync" }), what: format!("the library panicked: {}", msg), step: 0, expected: "no panic".into(), observed: msg }
+                            ObsFailure { property: "C01+C02+C03", classification: format!("{}/panic", if is_async { "async-lock" } else { "sync" }), what: format!("the library panicked: {}", msg), step: 0, expected: "no panic".into(), observed: msg }
                         }
                     };
-                    let mut props = vec![f.property];
+                    let mut props: Vec<&str> = f.property.split('+').collect();
                     if is_async {
                         props.push("C16");
                     }
                     let kn = known.matches(&f.classification);
                     let key = format!("{}|{}|{}", f.classification, f.property, f.what);
                     let j = serde_json::json!({
-                        "properties": props, "property": f.property, "classification": f.classification, "what": f.what, "step": f.step,
+                        "properties": props, "property": props[0], "classification": f.classification, "what": f.what, "step": f.step,
                         "expected": f.expected, "observed": f.observed, "known": kn,
                         "input": {"kind": "obs", "flavour": if is_async { "async-lock" } else { "sync" }, "unique_start": uniq, "follow_upgrade": follow, "ops": ops.iter().map(|o| o.to_text()).collect::<Vec<_>>()},
                     });
@@ -703,7 +722,7 @@ fn run_obs(check: &str, tier: &str, seed: u64, known: &Known) -> serde_json::Val
     let sample: Vec<String> = hist.get(n / 2).map(|h| h.1.iter().map(|o| o.to_text()).collect()).unwrap_or_default();
     serde_json::json!({
         "check": check, "tier": tier, "seed": seed,
-        "scope": format!("{} flavour; handle histories over: Set/SetIfNotEq/SetIfHashNotEq (keys {{0,1}}, every stored value tagged uniquely, equality and hash look at the key only), Update, UpdateIf(true/false), Take, write-guard setters, owner get/read, clone/drop/downgrade/upgrade/into_shared, subscribe/subscribe_reset, and per subscriber poll (two different wakers), next_now, next_ref_now, get, read, reset, clone, clone_reset, drop; at most 3 owners, 3 subscribers, 2 weak references; every sequence of depth {} from 2 fresh starts (shared, unique) and depth {} after 5 set-up prefixes{}", if is_async { "async-lock" } else { "sync" }, depth, depth - 1, if quick { "" } else { "; plus 200000 seeded random histories of length 14 (not exhaustive)" }),
+        "scope": format!("{} flavour; handle histories over: Set/SetIfNotEq/SetIfHashNotEq (keys {{0,1}}, every stored value tagged uniquely, equality and hash look at the key only), Update, UpdateIf(true/false), Take, write-guard setters, owner get/read, clone/drop/downgrade/upgrade/into_shared, subscribe/subscribe_reset, and per subscriber poll (two different wakers), next_now, next_ref_now, get, read, reset, clone, clone_reset, drop; at most 3 owners, 3 subscribers, 2 weak references; every sequence of depth {} from 2 fresh starts (shared, unique) and depth {} after 6 set-up prefixes (subscriber parked; two owners + weak; weak; unique turned shared; two subscribers with two wakers; an upgraded weak reference next to the original){}", if is_async { "async-lock" } else { "sync" }, depth, depth - 1, if quick { "" } else { "; plus 200000 seeded random histories of length 14 (not exhaustive)" }),
         "evaluations": n,
         "distinct_nontrivial": kinds.into_inner().unwrap().len(),
         "rule": "every history is executed on the real crate and on a reference model; results, readiness, wake-ups and counts are compared after every operation; non-trivial distinct cases = distinct (previous op kind, op kind) pairs executed",
@@ -776,7 +795,8 @@ fn run_obs_held(tier: &str, known: &Known) -> serde_json::Value {
             }
         };
         let key = f.classification.clone();
-        let j = serde_json::json!({"properties": ["C16"], "property": "C16", "classification": f.classification, "what": f.what, "step": 0, "expected": f.expected, "observed": f.observed, "known": known.matches(&key), "input": held_json(sc)});
+        let hprops: Vec<&str> = f.property.split('+').collect();
+        let j = serde_json::json!({"properties": hprops, "property": "C16", "classification": f.classification, "what": f.what, "step": 0, "expected": f.expected, "observed": f.observed, "known": known.matches(&key), "input": held_json(sc)});
         let e = failures.entry(key).or_insert((usize::MAX, serde_json::Value::Null));
         if sc.queued.len() < e.0 {
             *e = (sc.queued.len(), j);
@@ -784,7 +804,7 @@ fn run_obs_held(tier: &str, known: &Known) -> serde_json::Value {
     }
     serde_json::json!({
         "check": "obs-held", "tier": tier, "seed": 0,
-        "scope": format!("async-lock SharedObservable: a write guard or a read guard is held; every sequence of up to {} operations (set, set_if_not_eq, set_if_hash_not_eq, update, update_if, take, get, subscriber next/next_now/get/poll_next) is started behind it (each future polled once); then the guard is dropped and the futures are driven only when their waker fired; results, final value and the subscriber's readiness afterwards are compared with the sequential execution in queue order; set-ups: with/without an earlier update, with/without a subscriber, with/without an update the subscriber has not seen", if tier != "thorough" { 3 } else { 4 }),
+        "scope": format!("async-lock SharedObservable: a write guard or a read guard is held; every sequence of up to {} operations (set, set_if_not_eq, set_if_hash_not_eq, update, update_if, take, get, subscriber next/next_now/get/poll_next) is started behind it (each future polled once); then the guard is dropped and the futures are driven only when their waker fired; results, final value and the subscriber's readiness afterwards are compared with the sequential execution in queue order; a future still pending at the end must not complete when polled by hand (else its wake-up was lost), and the lock must be free again for a reader and a writer; set-ups: with/without an earlier update, with/without a subscriber, with/without an update the subscriber has not seen", if tier != "thorough" { 3 } else { 4 }),
         "evaluations": scs.len(),
         "distinct_nontrivial": kinds.len(),
         "rule": "distinct non-trivial cases = distinct (guard kind, queued op, next queued op) triples",
